@@ -3,6 +3,7 @@ C04 — set() reports one coherent outcome: return, value, u and signal agree.
 Model A: Flatland/Scalar.lean.  Spec B: Flatland/Spec/C04.lean.
 -/
 import Flatland.Scalar
+import Flatland.C04
 import Flatland.Spec.C04
 import Flatland.Generated.C04Tables
 import Proofs.Lemmas.C04Reset
@@ -164,5 +165,111 @@ theorem C04_reset_value_fails : ¬ C04_Full_reset_value := by
 
 example : Coherent Flatland.Generated.C04.booleanDefault = true := by decide
 example : ExactInput (.date true) (.date 2020 1 2) = true := rfl
+
+/-! ### signals of every element kind -/
+
+open Flatland.C04
+
+theorem prefixSigs_ne (i : Nat) (sigs : List Sig) : ∀ s ∈ prefixSigs i sigs, s.1 ≠ [] := by
+  intro s hs
+  unfold prefixSigs at hs
+  obtain ⟨t, _, rfl⟩ := List.mem_map.mp hs
+  simp
+
+theorem mergeCalls_ne (runs : List (Nat × ChildRun)) (n : Nat) :
+    ∀ c ∈ mergeCalls runs n, ∀ s ∈ c.2, s.1 ≠ [] := by
+  intro c hc s hs
+  unfold mergeCalls at hc
+  obtain ⟨j, _, hj⟩ := List.mem_filterMap.mp hc
+  obtain ⟨⟨i, r⟩, _, hr⟩ := List.exists_of_findSome?_eq_some hj
+  simp only [Option.map_eq_some_iff] at hr
+  obtain ⟨call, _, rfl⟩ := hr
+  exact prefixSigs_ne i _ s hs
+
+/-- **signals** — a completed `set()` of any element kind logs exactly one entry for that element,
+    as the last entry, with `adapted` equal to the returned flag; the entries before it belong to
+    elements below it. -/
+theorem signals_spec (E : Env) (S : Schema) (old : Elem) (x : Input) (out : SetOut)
+    (h : setElem E S old x = .ok out) :
+    ∃ pre, out.sigs = pre ++ [([], out.flag)] ∧ ∀ s ∈ pre, s.1 ≠ [] := by
+  cases S with
+  | scalar k =>
+    cases x with
+    | leaf n =>
+      simp only [setElem] at h
+      cases hs : setScalar E k n with
+      | error e => simp [hs] at h
+      | ok r =>
+        simp only [hs, Except.ok.injEq] at h
+        subst h
+        refine ⟨[], ?_, by simp⟩
+        simp [set_signals E k n r hs]
+    | list xs => simp [setElem] at h
+    | dict ps => simp [setElem] at h
+  | seq m =>
+    simp only [setElem] at h
+    split at h
+    · simp only [Except.ok.injEq] at h; subst h; exact ⟨[], rfl, by simp⟩
+    · split at h
+      · simp at h
+      · simp only [Except.ok.injEq] at h; subst h
+        refine ⟨_, rfl, ?_⟩
+        intro s hs
+        obtain ⟨⟨i, o⟩, _, hi⟩ := List.mem_flatMap.mp hs
+        exact prefixSigs_ne i _ s hi
+  | dict pol names fields =>
+    simp only [setElem] at h
+    split at h
+    · simp only [Except.ok.injEq] at h; subst h; exact ⟨[], rfl, by simp⟩
+    · split at h
+      · simp at h
+      · split at h
+        · simp at h
+        · simp only [Except.ok.injEq] at h; subst h
+          refine ⟨_, rfl, ?_⟩
+          intro s hs
+          obtain ⟨c, hc, hi⟩ := List.mem_flatMap.mp hs
+          exact mergeCalls_ne _ _ c hc s hi
+  | date =>
+    cases x with
+    | leaf n =>
+      simp only [setElem] at h
+      split at h
+      · simp at h
+      · simp only [Except.ok.injEq] at h; subst h; exact ⟨[], rfl, by simp⟩
+      · split at h
+        · simp only [Except.ok.injEq] at h; subst h
+          refine ⟨_, rfl, ?_⟩
+          intro s hs
+          simp only [List.mem_append] at hs
+          rcases hs with (hs | hs) | hs
+          · exact prefixSigs_ne _ _ s hs
+          · exact prefixSigs_ne _ _ s hs
+          · exact prefixSigs_ne _ _ s hs
+        all_goals simp at h
+    | list xs => simp [setElem] at h
+    | dict ps => simp [setElem] at h
+  | joined sep prune k =>
+    simp only [setElem] at h
+    split at h
+    · simp at h
+    · split at h
+      · simp at h
+      · simp only [Except.ok.injEq] at h; subst h
+        refine ⟨_, rfl, ?_⟩
+        intro s hs
+        obtain ⟨⟨i, o⟩, _, hi⟩ := List.mem_flatMap.mp hs
+        exact prefixSigs_ne i _ s hi
+
+/-- a Dict with a String field and a list-of-Strings field, set from a pair list that names `a`
+    twice: children's entries first (in loop order), the Dict's own entry last -/
+example :
+    (setElem plainEnv (.dict .subset ["a".toList, "l".toList] [.scalar (.string false), .seq (.scalar (.string false))])
+        (blank (.dict .subset ["a".toList, "l".toList] [.scalar (.string false), .seq (.scalar (.string false))]))
+        (.list [.list [.leaf (.str "a".toList), .leaf (.str "x".toList)],
+                .list [.leaf (.str "l".toList), .list [.leaf (.str "p".toList), .leaf (.str "q".toList)]],
+                .list [.leaf (.str "a".toList), .leaf .none]])).toOption.map (fun o => (o.flag, o.sigs)) =
+      some (true, [([0], true), ([1, 0], true), ([1, 1], true), ([1], true), ([0], true), ([], true)]) := by
+  decide
 
 end Flatland.C04.Proofs
